@@ -262,7 +262,11 @@ Clauses(E) ==
                                           /\ DocEq(Ev.doc, ToDoc(pool[Ev.a].c, pool[Ev.a].d))
                       [] Ev.op = "FromDoc" ->
                            LET r == Parse(Ev.doc) IN
-                           r.st = "valid" => DocEq(Ev.redoc, ToDoc(r.c, r.d))
+                           (* a valid document is loaded without loss: what the loaded object serialises to is the
+                              canonical document of the parsed content - or the given document itself (sibling bins
+                              may differ in optional keys, e.g. an empty sparse bin without its child's name, which
+                              one shared descriptor cannot express) *)
+                           r.st = "valid" => (DocEq(Ev.redoc, ToDoc(r.c, r.d)) \/ DocEq(Ev.redoc, Ev.doc))
                       [] OTHER -> TRUE,
     sem      |-> \/ ~WantSem \/ ~Ok \/ E.exc \/ ~shapeOK \/ overBudget \/ E.how \in {"pure", "drop", "free"}
                  \/ Ev.op \in {"Histogram", "StackBuild", "FractionBuild"}
